@@ -436,3 +436,84 @@ Proof.
   - inversion H; subst. split; [cbn; lia|]. split; [intros d [Hd|[]]; inversion Hd|].
     split; [cbn; exact Hc|]. left; reflexivity.
 Qed.
+
+(* ------------------------------------------------------------------ statements used by Properties/C10dial.v *)
+
+Lemma init_backoff : forall cause evs o, init_post cause evs o ->
+  exists first rs tail,
+    skel evs = first ++ bskel 0 rs ++ tail /\ (length rs <= 50)%nat /\
+    (first = [] \/ (cause = None /\ exists r, first = [DialAttempt r])) /\
+    (tail = [] \/ (exists e, tail = [WaitCut (lit_delay (length rs)) e]) /\ (length rs < 50)%nat) /\
+    (o = ITimeout -> length rs = 50%nat /\ Forall failed rs /\ tail = []) /\
+    (forall k kind, o = IConn k kind -> tail = [] /\ (rs = [] \/ exists rs0, rs = rs0 ++ [None] /\ Forall failed rs0)).
+Proof.
+  assert (Hr : forall ev o, retry_post 50 0 ev o ->
+    exists rs tail, skel ev = bskel 0 rs ++ tail /\ (length rs <= 50)%nat /\
+      (tail = [] \/ (exists e, tail = [WaitCut (lit_delay (length rs)) e]) /\ (length rs < 50)%nat) /\
+      (o = ITimeout -> length rs = 50%nat /\ Forall failed rs /\ tail = []) /\
+      (forall k kind, o = IConn k kind -> tail = [] /\ (rs = [] \/ exists rs0, rs = rs0 ++ [None] /\ Forall failed rs0))).
+  { intros ev o (rs & tail & Hs & Hl & Ho). exists rs, tail. split; auto. split; auto.
+    destruct o as [k kind | e | | ].
+    - destruct Ho as (-> & rs0 & -> & Hf). split; auto. split; [discriminate|]. intros; split; auto. right; eauto.
+    - contradiction.
+    - destruct Ho as (Hf & Hlt & e & ->). split; [right; split; eauto|]. split; [discriminate|]. discriminate.
+    - destruct Ho as (-> & Hn & Hf). split; auto. split; [auto|discriminate]. }
+  intros cause evs o H. unfold init_post in H. destruct cause as [e|].
+  - destruct (lit_recoverable e).
+    + destruct (Hr _ _ H) as (rs & tail & Hs & Hl & Ht & Hto & Hc). exists [], rs, tail. cbn [app]. refine (conj Hs (conj Hl (conj (or_introl eq_refl) (conj Ht (conj Hto Hc))))).
+    + destruct H as (-> & ->). exists [], [], []. cbn. repeat split; auto; try lia; try discriminate.
+  - destruct H as (ev0 & ev1 & r & -> & Hs0 & H). rewrite skel_app, Hs0.
+    destruct r as [e|].
+    + destruct (lit_recoverable e).
+      * destruct (Hr _ _ H) as (rs & tail & Hs & Hl & Ht & Hto & Hc). exists [DialAttempt (Some e)], rs, tail.
+        rewrite Hs. refine (conj eq_refl (conj Hl (conj (or_intror (conj eq_refl (ex_intro _ _ eq_refl))) (conj Ht (conj Hto Hc))))).
+      * destruct H as (-> & ->). exists [DialAttempt (Some e)], [], []. cbn. repeat split; auto; try lia; try discriminate.
+        right; split; eauto.
+    + destruct H as (-> & k & kind & ->). exists [DialAttempt None], [], []. cbn. repeat split; auto; try lia; try discriminate.
+      right; split; eauto.
+Qed.
+
+Lemma init_policy : forall e evs o, init_post (Some e) evs o ->
+  if lit_recoverable e
+  then (exists tl, skel evs = Wait 0 :: tl \/ exists d, skel evs = WaitCut 0 d :: tl) /\ (forall e', o <> IErr e')
+  else evs = [] /\ o = IErr e.
+Proof.
+  intros e evs o H; unfold init_post in H. destruct (lit_recoverable e); [|exact H].
+  destruct H as (rs & tail & Hs & Hl & Ho). split.
+  - destruct rs as [|r rs].
+    + destruct o as [k kind | e' | | ]; try contradiction.
+      * destruct Ho as (_ & rs0 & Hr & _). destruct rs0; discriminate.
+      * destruct Ho as (_ & _ & d & ->). exists []. right. exists d. exact Hs.
+      * destruct Ho as (_ & Hn & _). discriminate.
+    + exists (DialAttempt r :: bskel 1 rs ++ tail). left. exact Hs.
+  - intros e' ->. exact Ho.
+Qed.
+
+Lemma init_cancelled : forall m real e w ev w' o,
+  w_cancelled w = true -> lit_recoverable e = true -> init m real (Some e) w = (ev, w', o) ->
+  (count_dials ev <= 1)%nat /\ no_pos_wait ev /\ w_cancelled w' = true /\
+  (o = ICanceled \/ exists k kind, o = IConn k kind).
+Proof.
+  intros m real e w ev w' o Hc He; unfold init. rewrite recoverable_lit, He.
+  change (Z.to_nat dialAttempts) with (S (S 48)). change dialLoopStart with 0.
+  apply retry_cancelled; exact Hc.
+Qed.
+
+(* a cancellation that arrives during a back-off wait ends the re-initialisation at once *)
+Lemma wait_cancelled : forall m real n i delay w,
+  w_cancelled w = false -> 0 < delay -> hd false (w_waits w) = true ->
+  exists w', retry m real (S n) i delay w = ([WaitCut delay cut_offset; Cancel], w', ICanceled) /\ w_cancelled w' = true.
+Proof.
+  intros m real n i delay w Hc Hd Hw. rewrite retry_unfold. cbv zeta. rewrite Hc.
+  assert (H : 0 <? delay = true) by lia. rewrite H. unfold pop_wait. rewrite Hw.
+  eexists; split; reflexivity.
+Qed.
+
+(* with the context cancelled, a back-off wait of positive length returns at once *)
+Lemma wait_when_cancelled : forall m real n i delay w,
+  w_cancelled w = true -> 0 < delay ->
+  retry m real (S n) i delay w = ([WaitCut delay 0], w, ICanceled).
+Proof.
+  intros m real n i delay w Hc Hd. rewrite retry_unfold. cbv zeta. rewrite Hc.
+  assert (H : delay <=? 0 = false) by lia. rewrite H. reflexivity.
+Qed.
